@@ -4,6 +4,19 @@ import json, pathlib
 V = pathlib.Path(__file__).resolve().parent.parent
 ALL = [f"C{i:02d}" for i in range(1, 20)]
 CLAIMED = {
+ "C18": dict(
+   text="Coq theorems over Inject.v (the injection label function as exact string concatenation, lookup-or-create per parent, the "
+        "operator table incl. reflected forms and node delegation, Slice break-up, autorun rule, pull): every entry point creates "
+        "the class whose function applies that operator with operands in that order (finite table lifted by forallb_forall); the "
+        "value after a run/pull is pyop applied to the operand values (pyop, repr, hash are Section variables) and an invalid "
+        "operation surfaces as the operator's exception; re-writing an expression inside one parent reuses the node and adds no child, "
+        "over every history of injections; two different raw operands never share a node (given hash and repr injectivity). "
+        "Expressions over real channels/nodes with operands from a pool are compared with the model, values with the python "
+        "operator itself.",
+   design="7/C18", technique="Coq proofs (finite table by vm_compute+forallb_forall, induction over injection histories) + differential correspondence + oracle",
+   note="CPython operator semantics enter as per-case tables computed by the real interpreter; hash/repr injectivity are explicit "
+        "hypotheses. General distinctness is partial: labels are joined with '_' without escaping (known finding C18-underscore-framing). "
+        "Full/partial split holds for the code after fix ee32d7a (S17 and slice/autorun defects)."),
  "C06": dict(
    text="Coq theorems over Fail.v (the composite loop with children whose functions raise, local execution) and Dag.v (every "
         "schedule of executor children): a raising child ends failed, keeps its outputs and announces only `failed`; no "
